@@ -71,6 +71,7 @@ def check(ctx):
     layout.r_partition(ctx, 'R02.9')
     c07.r_value_to_structural(ctx, 'R02.10')
     c07.r_layout_tables(ctx, 'R02.11', c07.LAYOUT_CONSTRUCT, 20)
+    c07.r_uint_tables(ctx, only={'get_type', 'from-primitive', 'structural-value', 'structural-type'})   # the type a witness value reports is the type it is checked and encoded at
     satisfy.r_witness_node_typing(ctx, 'R02.12')
     satisfy.r_finalizers(ctx, 'R02.1f', check_pruned_values=True)
     ctx.rule('R02.1', 'every success path of satisfy_with_env finalizes with value pruning (finalize_pruned)')
